@@ -1,1 +1,61 @@
-From TV Require Import C07.Model.
+(* C07 — property theorems only.  Each is closed by [exact] of a lemma of
+   Proofs.v and followed by Print Assumptions. *)
+From Coq Require Import ZArith List Bool.
+From TV Require Import Common.LSet Common.Harness C07.Model C07.Law C07.Proofs.
+Import ListNotations.
+Open Scope Z_scope.
+
+(* The whole law (all 8 clauses) holds at every step of every history, for
+   every validator (accepting, rejecting, converting) and every start state. *)
+Theorem law_holds_on_every_history :
+  forall (vld : Z -> option Z) (ops : list op) (s : list Z) (i : Z),
+    law_hist vld i s (run vld s ops) = [].
+Proof. exact run_law. Qed.
+Print Assumptions law_holds_on_every_history.
+
+Theorem refines_builtin_set :
+  forall (vld : Z -> option Z) (s : list Z) (o : op),
+    let ob := step vld s o in
+    let '(bo, ba) := builtin vld s o (o_ret ob) in
+    o_out ob = bo /\ (forall x, mem x (o_after ob) = mem x ba).
+Proof. exact step_refines_builtin. Qed.
+Print Assumptions refines_builtin_set.
+
+Theorem delta_law :
+  forall (vld : Z -> option Z) (s : list Z) (o : op) (rem add : list Z),
+    In (rem, add) (o_events (step vld s o)) ->
+    (forall x, mem x rem = true -> mem x s = true) /\
+    (forall x, mem x add = true -> mem x s = false) /\
+    (forall x, mem x (o_after (step vld s o)) = (mem x s && negb (mem x rem)) || mem x add) /\
+    (exists x, mem x rem = true \/ mem x add = true).
+Proof. exact step_delta. Qed.
+Print Assumptions delta_law.
+
+Theorem silent_iff_unchanged_and_single_event :
+  forall (vld : Z -> option Z) (s : list Z) (o : op),
+    (seteq s (o_after (step vld s o)) = true -> o_events (step vld s o) = []) /\
+    (seteq s (o_after (step vld s o)) = false -> exists ev, o_events (step vld s o) = [ev]).
+Proof. exact step_one_event_iff_changed. Qed.
+Print Assumptions silent_iff_unchanged_and_single_event.
+
+Theorem failing_op_inert :
+  forall (vld : Z -> option Z) (s : list Z) (o : op) (e : exn),
+    o_out (step vld s o) = Raise e ->
+    (forall x, mem x (o_after (step vld s o)) = mem x s) /\ o_events (step vld s o) = [].
+Proof. exact step_failing_inert. Qed.
+Print Assumptions failing_op_inert.
+
+Theorem xor_is_builtin_for_nonconverting_validators :
+  forall (vld : Z -> option Z), (forall x y, vld x = Some y -> y = x) ->
+  forall s l, o_out (step vld s (SymDiffUpdate l)) = Ok ->
+    forall x, mem x (o_after (step vld s (SymDiffUpdate l))) = xorb (mem x s) (mem x l).
+Proof. exact sdu_is_symmetric_difference. Qed.
+Print Assumptions xor_is_builtin_for_nonconverting_validators.
+
+(* Non-vacuity: a concrete history with a converting validator in which
+   events are emitted, an operation fails, and a copy is taken. *)
+Example history_nontrivial :
+  let h := run (vld_of VCInt) [1; 2; 3] [Ixor (ASet [101; 4]); Add 200; SymDiffUpdate [103; 5]; Copy CopyDeep; Pop None] in
+  map (fun p => length (o_events (snd p))) h = [1; 0; 1; 0; 1]%nat
+  /\ map (fun p => o_out (snd p)) h = [Ok; Raise TraitError; Ok; Ok; Ok].
+Proof. vm_compute. split; reflexivity. Qed.
